@@ -130,6 +130,35 @@ def t_generators():
     return first + second + third + total + last + sum(gen(7))     # 0+1+4+14+5+20 = 44
 
 
+def _aux(seeds):
+    import itertools
+    yield from seeds
+    a, b = seeds[-2:]
+    for n in itertools.count(len(seeds)):
+        a, b = b, a + b + n
+        yield b
+
+
+def _radial(seeds):
+    ps = _aux(seeds)
+    q = next(ps) * 2
+    yield q
+    for n, p in enumerate(ps, start=1):
+        q = p - q + n
+        yield q
+
+
+def t_lazy_pipeline():
+    import itertools
+    # aux: 1, 2, 5 (1+2+2), 10 (2+5+3), 19 ; radial: 2, 2-2+1=1, 5-1+2=6, 10-6+3=7, 19-7+4=16
+    got = list(itertools.islice(_radial((1, 2)), 5))
+    for k, v in enumerate(_radial((1, 2))):
+        if k == 3:
+            break
+    third = next(itertools.islice(_radial((1, 2)), 2, None))
+    return sum(got) + v + third           # 32 + 7 + 6 = 45
+
+
 def t_itertools():
     import itertools
     c = itertools.count(10)
@@ -172,7 +201,7 @@ def t_getters():
     return first((8, 9)) + wid(Box(1, 4))              # 8 + 3 = 11
 '''
 
-EXPECT = {'t_namedtuple': 27, 't_subclass': 34, 't_partial': 42, 't_reduce': 63, 't_generators': 44, 't_sets_dicts': 74, 't_classes': 34, 't_getters': 11, 't_property_objects': 67, 't_itertools': 53}
+EXPECT = {'t_namedtuple': 27, 't_subclass': 34, 't_partial': 42, 't_reduce': 63, 't_generators': 44, 't_sets_dicts': 74, 't_classes': 34, 't_getters': 11, 't_property_objects': 67, 't_itertools': 53, 't_lazy_pipeline': 45}
 
 
 def main(db):
